@@ -186,11 +186,15 @@ pub fn gen_nblocks(t: &mut Tape<'_>, par: usize, max: usize) -> usize {
         4 * p + 1,
         5 * p - 1,
     ];
+    if b >= 252 && max >= 20 {
+        // rare: block counts around 256 (narrow loop counters, many parallel groups); not capped by `max`
+        return [255, 256, 257, 300][b - 252];
+    }
     let n = if b < 96 {
         table[(b * table.len()) / 96]
     } else {
         // uniform over 0..=max
-        ((b - 96) * (max + 1)) / 160
+        ((b - 96) * (max + 1)) / 156
     };
     n.min(max)
 }
@@ -340,6 +344,10 @@ pub fn gen_msg_len(t: &mut Tape<'_>, bs: usize, max_blocks: usize) -> usize {
     let k = 1 + t.idx(max_blocks.max(1));
     let any = t.idx(bs.max(1));
     let max = max_blocks * bs;
+    if class >= 253 && max_blocks >= 6 && bs <= 64 {
+        // rare: byte lengths around 256 blocks
+        return [255 * bs + any, 256 * bs, 256 * bs + 1][class as usize - 253];
+    }
     let v = match class {
         0..=9 => 0,
         10..=29 => any,             // < one block (possibly 0)
@@ -540,11 +548,16 @@ pub fn gen_block_index(t: &mut Tape<'_>, w: u32, reserve: u128) -> u128 {
     let v = match class {
         0..=39 => 0,
         40..=89 => a % 300,
-        90..=139 => {
+        90..=119 => {
             // around a byte-carry boundary of the counter: 2^(8k) - 2 .. 2^(8k) + 2
             let k = 1 + (a % ((w / 8) as u128 - 0)).min((w / 8) as u128 - 1);
             let base = if 8 * k >= 128 { u128::MAX } else { 1u128 << (8 * k) };
             base.wrapping_sub(2).wrapping_add(j)
+        }
+        120..=139 => {
+            // around any power of two (signed/unsigned and narrower-integer boundaries: 2^15, 2^31, 2^63, ...)
+            let k = 1 + (a % (w as u128 - 1));
+            (1u128 << k).wrapping_sub(2).wrapping_add(j)
         }
         140..=189 => {
             // pseudo-random over the whole range
